@@ -491,3 +491,48 @@ if __name__ == "__main__":
     import sys
     s, t = fragment(int(sys.argv[1]) if len(sys.argv) > 1 else 0, int(sys.argv[2]) if len(sys.argv) > 2 else 0)
     print(s); print(t)
+
+
+# ---------------------------------------------------------------------------------------------
+# straight-line opcode sequences over the whole opcode table (C11): lines sampled from the repository's own
+# parsing corpus (every supported opcode occurs there), plus immediates drawn from their ranges
+
+_POOL = None
+def opcode_pool():
+    global _POOL
+    if _POOL is None:
+        import corpus, re
+        seen, pool = set(), []
+        for name, src in corpus.repo_sources():
+            for l in src.splitlines():
+                l = l.split('//')[0].strip()
+                if not l or l.endswith(':') or l.startswith('#'): continue
+                op = l.split()[0]
+                if op in ('b', 'bz', 'bnz', 'callsub', 'retsub', 'err', 'return', 'switch', 'match', 'intcblock', 'bytecblock', 'proto'): continue
+                key = l if op in ('txn', 'global', 'gtxn', 'gtxns') else op
+                if (op, len(l.split())) in seen and key in seen: continue
+                seen.add((op, len(l.split()))); seen.add(key)
+                pool.append(l)
+        _POOL = pool
+    return _POOL
+
+def straightline(seed, index):
+    r = random.Random(f"straight/{seed}/{index}")
+    pool = opcode_pool()
+    n = r.randrange(4, 40)
+    lines = ["#pragma version 8"]
+    for _ in range(n):
+        c = r.random()
+        if c < 0.55:
+            lines.append(r.choice(pool))
+        elif c < 0.75:
+            k = r.randrange(0, 6)
+            lines.append(r.choice([f"dig {k}", f"cover {k}", f"uncover {k}", f"bury {k + 1}", f"popn {k}", f"dupn {k}", f"frame_dig {k - 3}",
+                                   f"frame_bury {k - 3}", "dup2", "swap", "mulw", "addw", "divmodw", "expw", "select", "dup", "pop",
+                                   "pushints " + " ".join(str(i) for i in range(k)), "pushbytess " + " ".join(f"0x0{i}" for i in range(k))]))
+        elif c < 0.9:
+            lines.append(r.choice(["txn RekeyTo", "txn Fee", "global ZeroAddress", "int 1000", "global GroupSize", "txn GroupIndex", "gtxn 1 Sender"]))
+        else:
+            lines.append(r.choice(["==", "!=", "<", "<=", "&&", "||", "!", "+", "-"]))
+    lines += [r.choice(["assert", "return", "pop"])]
+    return "\n".join(lines) + "\n"
